@@ -95,4 +95,6 @@ Definition run (name : string) (a : sx) : sx :=
   else if is "c10.sizeof" then H10.run_sizeof a
   else if is "c10.camel" then H10.run_camel a
   else if is "c10.enclen" then H10.run_enclen a
+  else if is "c03.cur" then H03.run_cur a
+  else if is "c04.cur" then H04.run_cur4 a
   else sx_err "unknown case kind".
